@@ -1,8 +1,68 @@
 import Oracle.Util
-/-! Oracle handlers for C08 (model functions exposed on the line protocol). -/
+import Oracle.C01
+import MobiusModel.Transfers
+/-! Oracle handlers for C08 (model functions exposed on the line protocol).
+
+  Byte strings may be written `hex+z<N>+hex…`: `z<N>` stands for N zero bytes (file contents never
+  influence header bytes or sizes; payload equality is judged by the harness against the disk).
+
+  File spec (`fileOfArgs`): `<name> <size> <rsrc: -|len> <mtime 8> <type 4> <creator 4> <0 | 1 + 11 information-fork tokens>`. -/
 namespace Oracle
 open Mobius
 
-def c08Handlers : List (String × Handler) := []
+def hexzPiece (s : String) : Bytes :=
+  if s.startsWith "z" then List.replicate (num (s.drop 1).toString) 0 else hexb s
+
+/-- `ab01+z1000+ff` → bytes. -/
+def hexz (s : String) : Bytes :=
+  if s = "-" then [] else ((s.splitOn "+").map hexzPiece).flatten
+
+def optNum (s : String) : Option Nat := if s = "-" then none else some (num s)
+
+def fileOfArgs : List String → Option (StoredFile × List String)
+  | nm :: sz :: rs :: mt :: ty :: cr :: hasInfo :: rest =>
+    let rsrcV : Option Bytes := (optNum rs).map (fun n => List.replicate n 0)
+    let base : StoredFile := StoredFile.mk (hexb nm) (List.replicate (num sz) 0) none rsrcV (hexb mt) (hexb ty) (hexb cr)
+    if hasInfo = "1" then
+      match infoOfArgs rest with
+      | some (i, rest') => some ({ base with info := some i }, rest')
+      | none => none
+    else some (base, rest)
+  | _ => none
+
+def fieldsStr (fs : List Field) : String := " ".intercalate (fs.map fieldStr)
+
+def c08Handlers : List (String × Handler) := [
+  -- dlreply <k|-> <preview> <ref> <filespec> → the reply's fields in order
+  ("dlreply", fun (a : List String) => match a with
+    | k :: pv :: ref :: rest => match fileOfArgs rest with
+      | some (f, []) => fieldsStr (downloadReplyFields (hexb ref) f { resume := optNum k, preview := pv == "1" })
+      | _ => "bad-op"
+    | _ => "bad-op"),
+  -- dlstream <k|-> <preview> <filespec> → len hdr trailer-header rsrc-length err
+  ("dlstream", fun (a : List String) => match a with
+    | k :: pv :: rest => match fileOfArgs rest with
+      | some (f, []) =>
+        let rq : DlRequest := { resume := optNum k, preview := pv == "1" }
+        let (out, err) := downloadStream f rq
+        let hl := if rq.preview then 0 else f.hdrLen
+        let body := out.drop hl
+        let rem := f.data.length - (rq.resume.getD 0)
+        let trailer := body.drop rem
+        let rl := f.rsrcSize
+        s!"len={out.length} hdr={toHex (out.take hl)} data={min rem body.length} trailer={toHex (trailer.take (trailer.length - rl))} rsrc={min rl trailer.length} err={err}"
+      | _ => "bad-op"
+    | _ => "bad-op"),
+  -- dlsplit <stream hexz> <fileSize> → what the reference client of the theorems obtains (lengths + info fork)
+  ("dlsplit", fun (a : List String) => match a with
+    | [s, n] => match splitDownload (hexz s) (num n) with
+      | some (info, data, rest) => s!"ok info={toHex info} data={data.length} rest={toHex rest}"
+      | none => "none"
+    | _ => "bad-op"),
+  -- hdrfields <header hex> → INFO size field, name size field (what the consistency theorems read)
+  ("hdrfields", fun (a : List String) => match a with
+    | [h] => let b := hexb h; s!"infosize={rd32 (b.drop 36)} namesize={rd16 (b.drop 110)} datasize={rd32 (b.drop (b.length - 4))} forks={rd16 (b.drop 22)}"
+    | _ => "bad-op")
+]
 
 end Oracle
